@@ -153,7 +153,7 @@ carquet_status_t carquet_delta_strings_decode(
     for (int32_t i = 0; i < num_values; i++) {
         int32_t prefix_len = prefix_lengths[i];
         int32_t suffix_len = suffix_lengths[i];
-        uint32_t total_len = (uint32_t)(prefix_len + suffix_len);
+        uint32_t total_len = (uint32_t)prefix_len + (uint32_t)suffix_len;
 
         /* Check work buffer space */
         if (work_offset + total_len > work_buffer_size) {
